@@ -61,10 +61,7 @@ class Setup:
                 units = ip.get("units", U.Units.kg_m2_h_kPa)
                 pair = []
                 for v, comp in zip(ip["values"], (self.mixture.first_component, self.mixture.second_component)):
-                    perm = U.Permeance(value=v, units=U.Units.kg_m2_h_kPa)
-                    if units != U.Units.kg_m2_h_kPa:
-                        perm = perm.convert(to_units=units, component=comp)
-                    pair.append(perm)
+                    pair.append(U.exact_permeance(v, units, comp.molecular_weight))
                 self.init_perm = tuple(pair)
             self.fit_kwargs = dict(c.get("fit_kwargs", {}))
         # the observing subclass is semantically transparent.  Trace checks do not wait for flux calculations that need more
